@@ -164,7 +164,7 @@ class Fn:
 
 
 MODULE_STRUCTS = {"AlgoDsu": ["DisjointSetUnion"], "AlgoPopulation": ["ChainTrees", "LazyLoadingTrees", "NestTrees"]}
-MODULE_IMPORTS = {}
+MODULE_IMPORTS = {"AlgoCheckers": ["AlgoDsu"]}
 
 STRUCTS = {
     "DisjointSetUnion": {"element_parent": "List Int", "rank": "List Int"},
@@ -572,7 +572,16 @@ class FnTr:
                 return steps, f"{n}.2", parse_type(callee.ret)
             steps.append(f"Py.bind ({call}) fun {n} =>")
             return steps, n, parse_type(callee.ret)
-        # --- constructors of translated classes
+        # --- constructors of translated classes: `C(args)` = `C.__init__(fresh object, args)`
+        if f in CLASS_INITS:
+            callee = by_lean_global[CLASS_INITS[f]]
+            vals = list(args) + [kw[k] for k in callee.params[1 + len(args):] if k in kw]
+            steps, codes = [], []
+            for x in vals:
+                s0, c, _ = self.tr(x); steps += s0; codes.append(c)
+            n = self.bindname()
+            steps.append(f"Py.bind ({callee.lean} default {' '.join(codes)}) fun {n} =>")
+            return steps, f"{n}.1", callee.cls
         if f in STRUCT_CTORS:
             ctor = STRUCT_CTORS[f]
             vals = list(args) + [kw[k] for k in kw]
@@ -984,6 +993,8 @@ class FnTr:
 
 
 STRUCT_CTORS = {}
+CLASS_INITS = {"DisjointSetUnion": "dsu_init"}      # python class name -> lean name of its translated __init__
+by_lean_global = {}
 
 
 def find_def(tree: ast.Module, cls, func):
@@ -1087,11 +1098,18 @@ spec(lean="to_sub_topology", module="AlgoSubtree", file="swcgeom/core/swc_utils/
      ret="((List Int) × (List Int)) × (List Int)")
 
 
+spec(lean="has_cyclic", module="AlgoCheckers", file="swcgeom/core/swc_utils/checker.py", func="has_cyclic",
+     params=["topology"],
+     vars={"topology": "(List Int) × (List Int)", "node_num": "Int", "dsu": "DisjointSetUnion", "i": "Int", "node_a": "Int", "node_b": "Int"},
+     ret="Bool", fuel=True)
+
+
 def regenerate(modules=None):
     """rewrite Gen/<module>.lean for the given modules (default: all) from the current sources; returns failure messages"""
     fails = []
     table = {}
     by_lean = {f.lean: f for f in SPECS}
+    by_lean_global.update(by_lean)
     for c, ln in CALLEES.items():
         table[c] = by_lean[ln]
     cache = {}
